@@ -1,4 +1,4 @@
-SOURCE_COMMITS = ['2a82dd5', '23b3277', 'd11a4bc', '0ff938d']
+SOURCE_COMMITS = ['2a82dd5', '23b3277', 'd11a4bc', '0ff938d', 'f5c3f96']
 NOTES = ('Exit codes of ./check: 0 all obligations discharged; 1 violation (VIOLATION line); '
          '2 undecided (solver unknown / extraction failure / contract binding lost); 3 checker crash. '
          'See DESIGN.md.')
@@ -61,4 +61,12 @@ CLAIMED = {
    note='Trusted: open("wb") truncates, write appends or raises, os.rename atomic, raw.read(b) returns min(b, remaining) or raises, '
         'content-length equals the payload size, copyfileobj copies all or raises. Not covered: concurrent callers; '
         'cifar100.load_split building its SQLite file in place.'),
+ 'C16': dict(
+   text='Proof against a NumPy/msgpack data model (library contracts as axioms): the real _ndarray_to_bytes/_ndarray_from_bytes and the '
+        'ext pack/unpack dispatch restore shape, dtype (byte order included) and values of every supported array, jax array and numpy '
+        'scalar for every layout; complex scalars and bytes-object arrays round-trip; object arrays are accepted only if every element '
+        'is bytes; structured dtypes never come back as themselves; the four ext codes are distinct and paired. A bounded native sweep '
+        '(594 cases: all dtypes x shapes x layouts x byte orders, rejects, nested trees, SQLite builder) cross-checks the axioms.',
+   note='Trusted: NumPy dtype/tobytes/frombuffer contracts, msgpack/zlib/pickle/sqlite3 round trips. Bounded only: nested-structure '
+        'recursion of msgpack, SQLite builder round trip.'),
 }
